@@ -214,6 +214,21 @@ func c14(ctx *Ctx) {
 		add(fmt.Sprintf("C14/B/tag-breaking/%q", n), []string{n, "other"}, false, false)
 		add(fmt.Sprintf("C14/B/tag-breaking-required/%q", n), []string{n, "other"}, false, true)
 	}
+	// composite-typed properties and definitions: the anyOf validator derives helper variable and type names from the type name
+	// (first letter lowered / raised); names starting with a non-ASCII letter are where byte-wise slicing shows
+	for _, n := range append(append([]string{}, c14Names...), "élan", "Émile", "ñu", "Ωmega", "ωmega", "Ǆx", "ǅx") {
+		branches := A{J{"type": "object", "properties": J{"a": J{"type": "string"}}, "required": A{"a"}}, J{"type": "object", "properties": J{"b": J{"type": "integer"}}, "required": A{"b"}}}
+		id := fmt.Sprintf("C14/B/anyof-property/%q", n)
+		cases = append(cases, SCase{ID: id, Cfg: baseCfg(), Axes: map[string]string{"pos": "siblings", "leaf": n},
+			Schema: J{"type": "object", "properties": J{n: J{"anyOf": branches}, "other": J{"type": "string"}}}})
+		docOf[id] = jsonv.Text(map[string]any{n: map[string]any{"a": "v0"}, "other": "v1"})
+		wantOf[id] = map[string]any{n: map[string]any{"a": "v0"}, "other": "v1"}
+		id = fmt.Sprintf("C14/B/anyof-definition/%q", n)
+		cases = append(cases, SCase{ID: id, Cfg: baseCfg(), Axes: map[string]string{"pos": "siblings", "leaf": n},
+			Schema: J{"type": "object", "properties": J{"p": J{"$ref": "#/$defs/" + n}, "other": J{"type": "string"}}, "$defs": J{n: J{"type": "object", "anyOf": branches}}}})
+		docOf[id] = jsonv.Text(map[string]any{"p": map[string]any{"a": "v0"}, "other": "v1"})
+		wantOf[id] = map[string]any{"p": map[string]any{"a": "v0"}, "other": "v1"}
+	}
 	// a property named like the synthetic field
 	cases = append(cases, SCase{ID: "C14/B/additionalProperties-name", Cfg: baseCfg(), Axes: map[string]string{"pos": "siblings", "leaf": "additionalProperties"},
 		Schema: J{"type": "object", "properties": J{"additionalProperties": J{"type": "string"}, "AdditionalProperties": J{"type": "string"}}, "additionalProperties": J{"type": "integer"}}})
@@ -229,7 +244,40 @@ func c14(ctx *Ctx) {
 				{"type": "object", "properties": J{"c": J{"type": "boolean"}}}}[i]
 		}, nested)...)
 	}
+	// two colliding names where one definition refers to the other (forward: the earlier-generated refers to the later one)
+	for _, fw := range []bool{true, false} {
+		first := J{"type": "object", "properties": J{"a": J{"type": "string"}}, "required": A{"a"}}
+		second := J{"type": "object", "properties": J{"b": J{"type": "integer"}}, "required": A{"b"}}
+		leaf := "backward-ref-pair"
+		if fw {
+			first["properties"].(J)["toOther"] = J{"$ref": "#/$defs/sku-code"}
+			leaf = "forward-ref-pair"
+		} else {
+			second["properties"].(J)["toOther"] = J{"$ref": "#/$defs/SkuCode"}
+		}
+		defCases = append(defCases, SCase{ID: "C14/same-type-name/" + leaf, Cfg: baseCfg(), Axes: map[string]string{"pos": "same-type-name", "leaf": leaf},
+			Schema: J{"type": "object", "properties": J{"p0": J{"$ref": "#/$defs/SkuCode"}, "p1": J{"$ref": "#/$defs/sku-code"}}, "$defs": J{"SkuCode": first, "sku-code": second}}})
+	}
 	runBehaviour(ctx, behaviour{Name: "defnames", Cases: defCases, Values: true, Devs: []string{"LEN_BYTES"},
+		OnBuildErr: func(sc *SCase, msg string) {
+			if sc.Axes["leaf"] == "forward-ref-pair" && strings.Contains(msg, "redeclared") && ctx.Run.Listed("COLLIDING_NAME_FORWARD_REF_DECLARED_TWICE") {
+				ctx.Run.Known("COLLIDING_NAME_FORWARD_REF_DECLARED_TWICE", sc.ID+": "+firstLine(msg), map[string]any{"kind": "gen", "files": sc.Case().Files, "args": sc.Case().Args, "cfg": sc.Case().Cfg})
+				return
+			}
+			ctx.Run.Violation("definition-names-not-compiling", fmt.Sprintf("%s: colliding definition names: emitted code does not compile: %s", sc.ID, firstLine(msg)),
+				map[string]any{"kind": "gen", "files": sc.Case().Files, "args": sc.Case().Args, "cfg": sc.Case().Cfg})
+		}})
+	// the same two names with contents that differ in exactly one keyword: the second definition must not be folded into the first
+	runBehaviour(ctx, behaviour{Name: "same-name-pairs", Cases: sameNamePairs("C14"), Values: true, K: 1,
+		Devs: []string{"LEN_BYTES", "FLOAT_MULTIPLEOF_TOLERANCE", "NULL_OBJECT_VALIDATES_ZERO", "DEFAULT_ENUM_NULL_REJECTED"},
+		DocFilter: func(sc *SCase, d *refmodel.Doc, tv refmodel.Verdict) bool {
+			for i := 0; i < len(d.Text); i++ {
+				if d.Text[i] >= 0x80 {
+					return false // lengths in characters vs bytes are C06's subject
+				}
+			}
+			return true
+		},
 		OnBuildErr: func(sc *SCase, msg string) {
 			ctx.Run.Violation("definition-names-not-compiling", fmt.Sprintf("%s: colliding definition names: emitted code does not compile: %s", sc.ID, firstLine(msg)),
 				map[string]any{"kind": "gen", "files": sc.Case().Files, "args": sc.Case().Args, "cfg": sc.Case().Cfg})
